@@ -111,7 +111,7 @@ class TypeMap:
 
     # ---- alias resolution --------------------------------------------------------------
     def resolve(self, s):
-        s = s.replace('typename ', '').replace('struct ', '').replace('class ', '')
+        s = s.replace('typename ', '').replace('struct ', '').replace('class ', '').replace('__restrict', '')
         s = re.sub(r'\benum ', '', s)
         for _ in range(20):
             changed = False
